@@ -1527,7 +1527,7 @@ def concatenate(
         ]
         batch = [contents[0]]
         for x in contents[1:]:
-            if batch[-1].mergeable(x, mergebool=mergebool):
+            if all(b.mergeable(x, mergebool=mergebool) for b in batch):
                 batch.append(x)
             else:
                 collapsed = batch[0].mergemany(batch[1:])
